@@ -16,9 +16,9 @@ DECIDES = ('derivative tables are indexed [u-order][v-order] consistently from p
            'point tables are written at [u-order][v-order][u-index][v-index] with direction-coherent indices, net strides and knot-vector slices '
            '(PK1, LY1, AX1), and in A3.3 the scalar factor of the difference quotient equals the index distance of the two knots it is divided by (PK2); [SKEL, bounded] for degrees 1..4, orders 0..degree+2, every span: no index error, no None placeholder consumed in any '
            'of the 6 derivative evaluators and 4 helpers. the [0, 1] parameter rejection is only evaluated for shapes with normalised knot vectors (RG1). every sum of the quotient rule restarts from zero between its consumption and its next accumulation (RQ1.sums-restart, CFG); the list variants of tangent/normal return the single-parameter result per parameter (TN2); every hodograph shape is a copy of the input or built with its normalize_kv, so it is parametrised like the input (HD2). both pluggable span searches return the half-open span that starts at a knot, so derivatives at knots are right-hand derivatives (OT1, order types). [SKEL, abstract object] interpreted on an object created with normalize_kv=False, the named methods never reach utilities.check_params and hand the request on to the evaluator / operation (RG2: spelling-independent form of RG1).')
-NOT_DECIDED = ('the floating-point value of any derivative (the exact rules decide the algebraic identity on symbolic tables for the enumerated degrees and orders, not the rounding; the basis-function derivative tables themselves are C03); unit length of normalised vectors; the values of the derivative control points (A3.3 / A3.7 factors are decided by PK1 / PK2 only); finite-difference agreement.')
+NOT_DECIDED = ('the floating-point value of any derivative (the exact rules decide the algebraic identity on symbolic tables for the enumerated degrees and orders, not the rounding; the basis-function derivative tables themselves are C03); unit length of normalised vectors; the values of the derivative control points outside the enumerated nets (PK3 decides A3.3 / A3.7 exactly on two curves and one surface, every window and order); finite-difference agreement.')
 TECHNIQUE = 'axis-tag dataflow, index-sum identities in polynomial normal form, call-contract guards; bounded index-skeleton interpretation for definedness'
-DECIDES += (" [ABSTRACT INTERPRETATION, exact] A36S / A34S: every derivative S^(k,l), k + l <= order, of the default and the alternative evaluators is the exact (double) sum over symbolic basis-derivative tables and (derivative) control points, zero above the degrees; RQ2: A4.2 / A4.4 are identities of rational functions in symbolic A^(k,l), w^(k,l) with exact binomials for orders 0..3 and every pattern of vanishing weight derivatives; HD3: hodographs on recorder shapes keep the parametrisation of their input (deep copy or the input's normalize_kv) and take degrees, knots and nets of their own differentiated directions; FD2: the binomial is not truncated from a float quotient (AX6, BC1, RQ1, A34, HD1, HD2 only corroborate).")
+DECIDES += (" [ABSTRACT INTERPRETATION, exact] A36S / A34S: every derivative S^(k,l), k + l <= order, of the default and the alternative evaluators is the exact (double) sum over symbolic basis-derivative tables and (derivative) control points, zero above the degrees; RQ2: A4.2 / A4.4 are identities of rational functions in symbolic A^(k,l), w^(k,l) with exact binomials for orders 0..3 and every pattern of vanishing weight derivatives; HD3: hodographs on recorder shapes keep the parametrisation of their input (deep copy or the input's normalize_kv) and take degrees, knots and nets of their own differentiated directions; FD2: the binomial is not truncated from a float quotient PK3: curve_deriv_cpts / surface_deriv_cpts are A3.3 / A3.7 exactly on rational knots and symbolic control points (AX6, BC1, RQ1, A34, HD1, HD2, PK1, PK2 only corroborate).")
 
 
 def site(fi, node=None):
@@ -43,8 +43,12 @@ def check(m, run):
         rq1(m, run, ev('SurfaceEvaluatorRational'), 2)
         a34(m, run, ev('CurveEvaluator2'), ev('SurfaceEvaluator2'))
     tn1(m, run)
-    pk1(m, run)
-    pk2(m, run)
+    n2 = len(run.obs)
+    _sd.pk3(m, run)
+    pk_ok = all(o.ok for o in run.obs[n2:])
+    with run.corroborating(pk_ok, 'PK3', rules=('PK1.deriv-cpts-positions', 'PK2.factor-equals-knot-index-distance')):
+        pk1(m, run)
+        pk2(m, run)
     funcs = [ev(c) for c in ('CurveEvaluator', 'CurveEvaluator2', 'SurfaceEvaluator', 'SurfaceEvaluator2')] + \
         [m.func('helpers.surface_deriv_cpts'), m.func('helpers.curve_deriv_cpts')]
     rl.ly1_canonical(m, run, funcs)
